@@ -404,4 +404,26 @@ PROPERTIES = {
                          "asan_tokens_created": 100000, "miri_tokens_created": 100},
         },
     },
+    "C04": {
+        "level": "exploration",
+        "rule": ("generated models: 2..8 modules in a double ring (two out gates per module) over channels with jitter {0, 1 ms, 20 ms}; handlers draw "
+                 "des::runtime::random, choose the out gate and an extra send_in delay from it; start delays drawn with des::runtime::sample; tasks with "
+                 "unbiased tokio::select! over three ready futures, select over interval.tick vs a long sleep, random sleeps; a third of the modules requests "
+                 "shutdown-and-restart (the restart rebuilds and reseeds the module's tokio runtime). For each (model, seed): executed twice back to back, once "
+                 "more after an unrelated simulation of another shape and seed, and (every fourth model) in a separate child process started with a random junk "
+                 "allocation. The trace = every delivery (time, module path, kind, id, content, source, value drawn), timer completion, task wake-up, select "
+                 "branch, plus final time / event count / remaining / result; all executions must be byte-identical. Non-trivial = model whose trace "
+                 "changes when only the seed changes; distinct = model seed."),
+        "assumptions": ["module ids and addresses are deliberately not part of the trace (ids come from a process-global counter)"],
+        "stages": [
+            native("repro", "desmon", "c04", tiers=QT, timeout={"quick": 900, "thorough": 5400}),
+        ],
+        "floor": {
+            "quick": {"executions_compared": 10000, "separate_process_executions_compared": 800, "select_choices_observed": 80000,
+                      "random_draws_observed": 300000, "restarts_observed": 4000, "runs_with_channel_jitter": 2000,
+                      "models_whose_history_changes_with_the_seed": 1400},
+            "thorough": {"executions_compared": 200000, "separate_process_executions_compared": 16000, "select_choices_observed": 1600000,
+                         "restarts_observed": 80000, "models_whose_history_changes_with_the_seed": 28000},
+        },
+    },
 }
